@@ -18,6 +18,9 @@
 //!   L=<id>                  WalArchiver::new(0).archive_log(id)          (wal_archive_manager archive)
 //!   F=0 | F=-               from here on run C / L with RLIMIT_FSIZE = 0 (every write to a regular file fails with
 //!                           EFBIG after File::create succeeded: the "late" I/O failure) / restore the limit
+//!   W=<hexname>=b=<contenthex>=<linehex>~<desc>,…   a WAL file with exactly these bytes (the table classifies its lines for the model)
+//!   RPL=<hexname>           what WAL replay restores from that one file: the file is copied to a scratch WAL directory and a
+//!                           real ShardContext is built on it (ShardContext::new runs WalRecovery); prints the memtable
 //!   REC                     WalArchiveRecovery::new(0, archive dir).recover_all()   (… recover)
 //! Output: observations of C (WAL listing after the cleanup) / L / REC in order, then the final listing of both directories with every
 //! archive decoded by WalArchive::read_from_file.
@@ -143,21 +146,47 @@ fn entry_in(s: &str) -> WalEntry {
         event_id: EventId::from_raw(f[3].parse().unwrap()),
     }
 }
+/// WAL replay of one log file through the real `WalRecovery` (run by `ShardContext::new`); None if the file cannot be copied.
+fn replay_one(b: &Path, src: &Path) -> Option<String> {
+    let scratch = b.join("rpl");
+    wipe(&scratch);
+    let (w, c) = (scratch.join("wal"), scratch.join("cols"));
+    fs::create_dir_all(&w).unwrap();
+    fs::create_dir_all(&c).unwrap();
+    if src.is_dir() || fs::copy(src, w.join("wal-00000.log")).is_err() { return None; }
+    // current-thread runtime: the WAL writer task spawned by ShardContext::new never runs, the directory stays as it is
+    let rt = tokio::runtime::Builder::new_current_thread().enable_all().build().unwrap();
+    let out = rt.block_on(async {
+        let ctx = snel_db::engine::shard::context::ShardContext::new(0, c.clone(), w.clone());
+        ctx.memtable.iter().map(|e| {
+            let p: Vec<String> = e.payload.iter().map(|(k, v)| format!("{}@{}", hexs(k.as_bytes()), scalar_out(v))).collect();
+            format!("{}/{}/{}/{}/{}", e.timestamp, hexs(e.context_id.as_bytes()), hexs(e.event_type.as_bytes()), e.event_id().raw(), p.join("+"))
+        }).collect::<Vec<_>>().join("|")
+    });
+    drop(rt);
+    Some(out)
+}
+
 fn entries_out(es: &[WalEntry]) -> String {
     es.iter().map(entry_out).collect::<Vec<_>>().join("|")
 }
 
 fn put_wal(dir: &Path, spec: &str) {
-    // <hexname>=d | <hexname>=f=<rawhex>~<desc>,…
-    let f: Vec<&str> = spec.splitn(3, '=').collect();
+    // <hexname>=d | <hexname>=f=<rawhex>~<desc>,… | <hexname>=b=<contenthex>=<linehex>~<desc>,…
+    let f: Vec<&str> = spec.splitn(4, '=').collect();
     let p = dir.join(osname(f[0]));
     if p.is_dir() { let _ = fs::remove_dir_all(&p); } else { let _ = fs::remove_file(&p); }
     if f[1] == "d" {
         fs::create_dir_all(&p).unwrap();
+    } else if f[1] == "b" {
+        // the bytes of the file verbatim (final-line shapes: no trailing newline, "\r\n", only "\n", …)
+        fs::write(&p, unhex(f[2])).unwrap();
     } else {
+        let rest = if f.len() > 3 { format!("{}={}", f[2], f[3]) } else if f.len() > 2 { f[2].to_string() } else { String::new() };
+        let f2: &str = &rest;
         let mut content: Vec<u8> = Vec::new();
-        if f.len() > 2 && !f[2].is_empty() {
-            for l in f[2].split(',') {
+        if !f2.is_empty() {
+            for l in f2.split(',') {
                 let raw = l.split('~').next().unwrap();
                 content.extend_from_slice(&unhex(raw));
                 content.push(b'\n');
@@ -246,6 +275,10 @@ fn run_case(t: &[String]) -> String {
                 let cleaner = if use_x { WalCleaner::with_wal_dir(0, xwal.clone()) } else { WalCleaner::new(0) };
                 with_fsize_limit(starve, || cleaner.cleanup_up_to(keep));
                 obs.push(if use_x { format!("C:{}/{}", listing_w(&wal), listing_w(&xwal)) } else { format!("C:{}", listing_w(&wal)) });
+            }
+            "RPL" => {
+                let src = (if use_x { &xwal } else { &wal }).join(osname(v));
+                obs.push(match replay_one(b, &src) { Some(s) => format!("RPL:{}", s), None => "RPL:none".into() });
             }
             "L" => {
                 let r = with_fsize_limit(starve, || WalArchiver::new(0).archive_log(v.parse().unwrap()));
